@@ -928,6 +928,13 @@ class Interp:
                     return ClassRef(obj.cls)
             if "__native__" in obj.attrs and hasattr(obj.attrs["__native__"], attr):
                 return ("native", obj.attrs["__native__"], attr)
+            nt_fields = self._namedtuple_fields(obj.cls) if attr in ("_replace", "_asdict", "_fields") else None
+            if nt_fields is not None:
+                if attr == "_fields":
+                    return tuple(nt_fields)
+                if attr == "_asdict":
+                    return Native(lambda o=obj, fs=nt_fields: {f: o.attrs[f] for f in fs})
+                return Native(lambda o=obj, **kw: Obj(o.cls, {**{k_: v_ for k_, v_ in o.attrs.items()}, **kw}, label=o.label))
             if obj.attrs.get("__closed__"):
                 raise Raised("AttributeError")  # the abstract state of this object is complete: a missing attribute is missing
             raise AnalysisError(f"attribute `{attr}` of abstract {obj!r} is not in the abstract state and not defined by its class")
@@ -1314,6 +1321,23 @@ class Interp:
                 args = [list(args[0].attrs["__native__"]), *args[1:]]
             if short in ("list", "tuple", "set", "frozenset", "sorted", "enumerate", "reversed") and args and isinstance(args[0], Obj):
                 args = [list(self._iterate(args[0])), *args[1:]]
+            if short in ("min", "max") and (("key" in kwargs and kwargs["key"] is not None) or any(isinstance(a, Obj) for a in args)):
+                # a key function from the analysed code (or abstract operands): applied by the evaluator, compared natively
+                items = list(self._iterate(args[0])) if len(args) == 1 else list(args)
+                if not items:
+                    if "default" in kwargs:
+                        return kwargs["default"]
+                    raise Raised("ValueError")
+                k = kwargs.get("key")
+                keyed = [(self._sort_key(self.apply(k, [x], {})) if k is not None else self._sort_key(x), i, x) for i, x in enumerate(items)]
+                try:
+                    best = keyed[0]
+                    for cand_ in keyed[1:]:
+                        if (cand_[0] < best[0]) if short == "min" else (cand_[0] > best[0]):
+                            best = cand_
+                except TypeError:
+                    raise Raised("TypeError") from None
+                return best[2]
             if short == "sorted" and "key" in kwargs:
                 k = kwargs["key"]
                 return sorted(args[0], key=lambda x: self._sort_key(self.apply(k, [x], {})), reverse=kwargs.get("reverse", False))
@@ -1364,6 +1388,23 @@ class Interp:
                 raise Raised(type(ex).__name__) from None
         if name in ("typing.cast", "cast"):
             return args[1]
+        if name in ("functools.reduce", "reduce") and len(args) in (2, 3):
+            items = list(self._iterate(args[1]))
+            if len(args) == 3:
+                acc = args[2]
+            elif items:
+                acc, items = items[0], items[1:]
+            else:
+                raise Raised("TypeError")
+            for x in items:
+                acc = self.apply(args[0], [acc, x], {})
+            return acc
+        if name == "itertools.chain.from_iterable" and len(args) == 1:
+            return [y for x in self._iterate(args[0]) for y in self._iterate(x)]
+        if name in ("operator.itemgetter", "operator.attrgetter") and args and all(isinstance(a, (str, int)) for a in args):
+            getter = (lambda o, a: self._getattr(o, a, None)) if name.endswith("attrgetter") else (lambda o, a: (self._call_dunder(o, "__getitem__", [a]) if isinstance(o, Obj) else o[a]))
+            keys_ = list(args)
+            return Native(lambda o: getter(o, keys_[0]) if len(keys_) == 1 else tuple(getter(o, a) for a in keys_))
         if name.startswith("re.") and short in ("compile", "match", "search", "fullmatch", "sub", "subn", "split", "findall", "finditer", "escape"):
             import re as _re
 
